@@ -28,7 +28,7 @@ func bitLayoutConsts(f *core.FuncInfo) map[string]bool {
 			return true
 		})
 	}
-	ast.Inspect(f.Body(), func(x ast.Node) bool {
+	core.InspectBody(f, func(x ast.Node) bool {
 		switch s := x.(type) {
 		case *ast.BinaryExpr:
 			switch s.Op {
@@ -74,7 +74,7 @@ func init() {
 					n := 0
 					for _, f := range r.W.AllFuncs(pkg) {
 						c := f.Ctx()
-						ast.Inspect(f.Body(), func(x ast.Node) bool {
+						core.InspectBody(f, func(x ast.Node) bool {
 							var val ast.Expr
 							var pos token.Pos
 							switch s := x.(type) {
